@@ -259,6 +259,16 @@ func TestVerifC07(t *testing.T) {
 						)
 					}
 				}
+				// negated pattern: the ! is part of the scalar, columns count it
+				if quote != 0 {
+					for k := 1; k <= 3; k++ {
+						pat := "!" + strings.Repeat("a", k) + " b"
+						v, qo := q(pat)
+						cases = append(cases,
+							kc{"glob-negated/block/" + c07QuoteNames[quote], top + "on:\n  push:\n    branches:\n" + ind + "- " + v + "\njobs:\n  a:\n    runs-on: ubuntu-latest\n    steps:\n      - run: echo\n", `^character ' ' is invalid for branch and tag names`, above + 4, len(ind) + 3 + qo + k + 1},
+						)
+					}
+				}
 				for k := 1; k <= 4; k++ {
 					pat := strings.Repeat("a", k) + " b"
 					v, qo := q(pat)
